@@ -25,15 +25,16 @@ import (
 const profilerUid = 60001 // absent from /etc/passwd: os/user falls back to $HOME
 
 type profRig struct {
-	dir        string // root of this rig (world-writable)
-	home       string
-	bindir     string // contains the fake `go`
-	nogo       string // empty dir: PATH for "tool missing"
-	binary     string // the ELF handed to the profiler
-	listing    string // file the fake tool prints
-	profiler   string
-	cacheMount string // if set: the cache directory is a tmpfs mount of its own
-	tmpdir     string // if set: TMPDIR of the profiler, a directory on another file system than its home (renames between
+	dir         string // root of this rig (world-writable)
+	home        string
+	bindir      string // contains the fake `go`
+	nogo        string // empty dir: PATH for "tool missing"
+	binary      string // the ELF handed to the profiler
+	listing     string // file the fake tool prints
+	profiler    string
+	shortBinary string // set by useLongName: the same file under its ordinary name
+	cacheMount  string // if set: the cache directory is a tmpfs mount of its own
+	tmpdir      string // if set: TMPDIR of the profiler, a directory on another file system than its home (renames between
 	// the two fail with EXDEV)
 }
 
@@ -157,6 +158,20 @@ func (r *profRig) setListing(text string) error {
 }
 
 // changeBinary makes the ELF at the same path a different file (other hash).
+// useLongName gives the binary a file name of n bytes (a hard link to the same file, so later changes of the binary
+// show under both names) and remembers the short one for reference runs.
+func (r *profRig) useLongName(n int) error {
+	if n < 10 || n > 255 {
+		return fmt.Errorf("bad name length %d", n)
+	}
+	long := filepath.Join(r.dir, "t"+strings.Repeat("x", n-5)+".bin")
+	if err := os.Link(r.binary, long); err != nil {
+		return err
+	}
+	r.shortBinary, r.binary = r.binary, long
+	return nil
+}
+
 func (r *profRig) changeBinary(salt uint64) error {
 	f, err := os.OpenFile(r.binary, os.O_APPEND|os.O_WRONLY, 0)
 	if err != nil {
